@@ -363,6 +363,13 @@ class ExprMixin:
                 if is_and:
                     res = ops.ite(t, res, v)
                 else:
+                    if not v.is_py and isinstance(v.ty, T.Opt) and not isinstance(getattr(self, "_assign_want", None), T.Opt):
+                        # `a or b` with a: Optional[X] and b: X (`text or ""`): the value is an X, not an Optional[X] -- where a
+                        # is chosen it is truthy, hence not None.  (A local DECLARED Optional keeps the Optional-typed join.)
+                        rty = res.ty if res.ty is not PYOBJ else (ops.py_type_of(res.py) if is_const(res) and res.py is not None else None)
+                        if rty is not None and rty == v.ty.inner:
+                            res = ops.ite(t, Val(v.ty.inner, v.ty.sort().val(v.term)), res)
+                            continue
                     try:
                         res = ops.ite(t, v, res)
                     except (Unsupported, ContractMisfit):
@@ -550,6 +557,13 @@ class ExprMixin:
             if cs.contains is None:
                 raise Unsupported(f"`in` on {b.ty}", node)
             r = cs.contains(self, st, b, a)
+            return z_not(r) if isinstance(op, ast.NotIn) else r
+        if (isinstance(op, (ast.In, ast.NotIn)) and isinstance(a.ty, T.Opt) and not a.is_py and not b.is_py
+                and isinstance(b.ty, (T.Dict, T.Set, T.List)) and not isinstance(b.ty.k if isinstance(b.ty, T.Dict) else b.ty.elem, (T.Opt, T.Union))):
+            # `x in c` with x Optional and c a container of plain values: None is not among them
+            s_ = a.ty.sort()
+            r = ops.compare(ast.In(), Val(a.ty.inner, s_.val(a.term)), b, node)
+            r = z_and(s_.is_some(a.term), r)
             return z_not(r) if isinstance(op, ast.NotIn) else r
         r = ops.compare(op, a, b, node)
         if isinstance(op, (ast.In, ast.NotIn)) and getattr(self.c, "seq_positions", False) and isinstance(b.ty, T.List) and not b.is_py and not isinstance(r, bool):
